@@ -2,7 +2,10 @@
 
 mod api;
 mod checks;
+mod dfam;
+mod drv;
 mod engine;
+mod hfam;
 mod inputs;
 mod mem;
 mod refs;
@@ -25,6 +28,7 @@ fn tier_of(s: &str) -> Tier {
 
 fn self_test() -> Result<(), String> {
     refs::cksum::self_test()?;
+    refs::selftest::self_test()?;
     Ok(())
 }
 
